@@ -582,6 +582,19 @@ def strtok_r (m : Mem) (str : Option Ptr) (delim : Ptr) (save : Option Ptr) (fue
 def strtok (m : Mem) (str : Option Ptr) (delim : Ptr) («static» : Option Ptr) (fuel : Nat) :
     Option (Mem × Option Ptr × Option Ptr) := strtok_r m str delim «static» fuel
 
+/-- a history of strtok_r calls on ONE string (round 3): the first call passes
+`str`, every later one NULL; call i uses the delimiter string at `ds[i]`.  The
+save pointer is threaded from call to call exactly as `*saveptr` (resp. the
+static of `strtok`) is.  Returns the memory, the final save pointer and the
+result of every call. -/
+def strtokCalls (m : Mem) (fuel : Nat) : List Ptr → Option Ptr → Option Ptr →
+    Option (Mem × Option Ptr × List (Option Ptr))
+  | [], _, save => some (m, save, [])
+  | d :: ds, str, save => do
+      let (m, save, r) ← strtok_r m str d save fuel
+      let (m, save, rs) ← strtokCalls m fuel ds none save
+      pure (m, save, r :: rs)
+
 /-- historical: without the fix the save pointer is left untouched on the
 "no token" exit -/
 def strtok_rOrig (m : Mem) (str : Option Ptr) (delim : Ptr) (save : Option Ptr) (fuel : Nat) :
